@@ -1,7 +1,8 @@
 import Rawr.Props.C06
 import Rawr.Props.C07_full
 import Rawr.Props.C07Examples
-import Rawr.Proofs.RustTextAgree_Rules
+import Rawr.Proofs.RustTextAgree_GetFenRules
+import Rawr.Proofs.RustTextAgree_SetFen
 /-!
 # C06 on the regenerated code: FEN round trips through `R.get_fen` and `R.set_fen`
 
